@@ -45,6 +45,46 @@ class TranslateError(Exception):
     pass
 
 
+
+def refused_strategies(test, alias):
+    """The set of awesomeversion strategies that is_version refuses before comparing, from the test
+    `<alias>.strategy == AwesomeVersionStrategy.X` or `<alias>.strategy in (AwesomeVersionStrategy.X, ...)`;
+    None for any other shape.  SPECIALCONTAINER must be among them (fix b5ee08d)."""
+    import awesomeversion
+    S = awesomeversion.AwesomeVersionStrategy
+    if not (isinstance(test, ast.Compare) and len(test.ops) == 1 and len(test.comparators) == 1
+            and ast.unparse(test.left).replace(" ", "") == f"{alias}.strategy"):
+        return None
+    rhs = test.comparators[0]
+    if isinstance(test.ops[0], ast.Eq):
+        elts = [rhs]
+    elif isinstance(test.ops[0], ast.In) and isinstance(rhs, (ast.Tuple, ast.List, ast.Set)):
+        elts = list(rhs.elts)
+    else:
+        return None
+    out = set()
+    for e in elts:
+        if not (isinstance(e, ast.Attribute) and isinstance(e.value, ast.Name) and e.value.id == "AwesomeVersionStrategy"
+                and hasattr(S, e.attr)):
+            return None
+        out.add(getattr(S, e.attr))
+    return out if S.SPECIALCONTAINER in out else None
+
+
+def live_refused_strategies():
+    """The refused set of the is_version of the tree under check (empty set when there is no such test)."""
+    import inspect
+    import textwrap
+    from mysensors import validation
+    fn = ast.parse(textwrap.dedent(inspect.getsource(validation.is_version))).body[0]
+    for node in ast.walk(fn):
+        if isinstance(node, ast.If) and isinstance(node.test, ast.Compare) and ".strategy" in ast.unparse(node.test.left):
+            alias = ast.unparse(node.test.left).split(".")[0]
+            r = refused_strategies(node.test, alias)
+            if r is not None:
+                return r
+    return set()
+
 def fail(where, node_or_text):
     if isinstance(node_or_text, ast.AST):
         try:
@@ -484,7 +524,7 @@ def version_facts(mods):
             fail(w, sa)
         alias = sa.targets[0].id
         container_raise = if_raise(sc)
-        if ast.unparse(sc.test).replace(" ", "") != f"{alias}.strategy==AwesomeVersionStrategy.SPECIALCONTAINER" or \
+        if refused_strategies(sc.test, alias) is None or \
                 validation.__dict__.get("AwesomeVersionStrategy") is not awesomeversion.AwesomeVersionStrategy:
             fail(w, sc.test)
     else:
@@ -504,6 +544,9 @@ def version_facts(mods):
     out.append("Definition is_version_catches_own_raise : bool := %s." %
                ("true" if isinstance(raised_cls, type) and issubclass(raised_cls, caught) else "false"))
     out.append("Definition is_version_rejects_container : bool := %s." % ("true" if alias else "false"))
+    out.append("(* strategies refused before the comparison (the oracle `cont` of Model/ConfigVersion.v is fed with "
+               "\"AwesomeVersion(s).strategy is one of these\"): %s *)" %
+               (", ".join(sorted(x.name for x in refused_strategies(sc.test, alias))) if alias else "none"))
     out.append("Definition is_version_catches_container_raise : bool := %s." %
                ("true" if container_raise is None or (isinstance(container_raise, type)
                                                      and issubclass(container_raise, caught)) else "false"))
